@@ -102,6 +102,27 @@ func (e *vfRouteExec) apply(a string) error {
 		e.openTarget(e.tgt[arg(1)-1])
 	case "openS":
 		e.openSource(e.src[arg(1)-1])
+	case "reopenT":
+		// the target shard opens a new stream while its previous one is still alive (overlapping incarnations)
+		e.openTarget(e.tgt[arg(1)-1])
+	case "reopenS":
+		e.openSource(e.src[arg(1)-1])
+	case "breakOldT":
+		t := e.tgt[arg(1)-1]
+		if len(t.incoming) < 2 {
+			return fmt.Errorf("action %s not enabled", a)
+		}
+		e.logf("T%d#%d (the older stream) breaks", t.idx, len(t.incoming)-2)
+		t.incoming[len(t.incoming)-2].breakNow()
+	case "breakOldSin":
+		s := e.src[arg(1)-1]
+		if len(s.incoming) < 2 {
+			return fmt.Errorf("action %s not enabled", a)
+		}
+		e.logf("S%d#%d (the older stream initiated by the source shard) breaks", s.idx, len(s.incoming)-2)
+		s.incoming[len(s.incoming)-2].breakNow()
+	case "failopenS":
+		e.src[arg(1)-1].failNextOpen = true
 	case "emit":
 		s := e.src[arg(1)-1]
 		if s.pull() == nil || s.pos >= len(s.script) {
